@@ -63,6 +63,9 @@ def run(ctx):
         ok = n_ is not None and n_[0] == "aggr" and dict(zip(n_[1][3], n_[2])).get("arch") == arg(1) and \
             all(v == ("aggr", ("adt", "core::option::Option", "None", ()), ()) for k, v in zip(n_[1][3], n_[2]) if k != "arch")
         ctx.check(ok, "SETTER", "Builder::new", "Builder::new(arch) stores the chosen architecture and starts with all slots empty", bn[0].get("span", ""), how=G.show(rt)[:120], why=G.show(rt)[:300])
+    if ctx.tier == "thorough":
+        from .. import witness
+        witness.check(ctx, [("SlotTypeHeader", "a header-builder slot only accepts its own tag type")], rule="SETTER")
     for pid in ("C16", "C07", "C10"):
         ctx.import_prop(pid)
     ctx.note("hand step: new_boxed calls set_size(total) which stores the byte length and the recomputed checksum (C10.K set_size); the pushed slices are the supplied tags' "
